@@ -2,12 +2,14 @@
 // Complete sweeps: all 2^24 three-byte groups, all 2^16 / 2^8 tails (alone and after a full
 // group), all 2^16 hex pairs, plus a length x content sweep crossing the SSO limit.
 #define VF_MAIN_TU
+#include "early.h"
 #include "verif.h"
 #include "alloc.h"
 #include "crc.h"
 #include "ref_codec.h"
 #include "oracle_crc.h"
 #include "st_codecs.h"
+#include "early_battery.h"
 #include <memory>
 
 using vf::Ctx;
@@ -295,6 +297,7 @@ static void build(vf::Plan &plan, const vf::Opts &o)
                    unsigned b = vf::take(i, 256), slot = vf::take(i, 6), other = vf::take(i, 3);
                    return strf("byte %02X at slot %u, filler %u", b, slot, other);
                });
+    vf_early::add_stage(plan);
 }
 
 VF_MAIN("C14", build)
